@@ -18,6 +18,7 @@ EXPLANATION = ("Gating. R1 (exhaustive over every log macro LogMacros.h defines,
                "and TransitEvent::log_level() returns it iff the metadata level is Dynamic (events are reused).")
 NOT_DECIDED = ("Concurrent level changes (relaxed atomics: 'at the moment of the call' is whatever the load returns); user filter "
                "semantics.")
+EXHAUSTIVE = "every log macro LogMacros.h defines (list re-derived with clang -E -dM on every run) x the analysed compile-time configurations"
 ASSUMPTIONS = []
 BW = "quill::detail::BackendWorker::"
 LL = "quill::LogLevel::"
